@@ -88,12 +88,14 @@ type c03Case struct {
 	kline int
 	// crash during recovery (thorough): second-level crash point index
 	nested *gen.CrashPoint
+	// kill at the instant the first final output path of the target task becomes visible (the runner polls the path)
+	visible bool
 }
 
 func c03(args []string) {
 	c := chk.New("C03", "fault_enumeration", args)
 	c.Build(false)
-	c.Rule("graph shapes (chain, diamond, 2-output task with two consumers, parameter fan of 6 tasks, task with additional files; commands and Go functions; plain / nested / ../ paths) x crash points of every task enumerated from a dry run's event log x in-command group kills x kills at logical trace instants; protocol per case: (1) crashed run, (2) if temp directories are left: re-run without cleanup must stop with non-zero status and finalize nothing wrong, (3) remove temp directories and FIFOs, re-run: must succeed, yield exactly the uninterrupted file set and bytes, and must not re-execute tasks whose outputs were already final (no start event, same inode and mtime), (4) thorough: the recovery run is itself crashed and recovered; one topology has a task whose declared output is a directory. distinct_nontrivial = distinct (shape, path shape, kind, crash instant) whose crash fired, classified by the pre-recovery state (leftovers / partially finalized / clean)")
+	c.Rule("graph shapes (chain, diamond, 2-output task with two consumers, parameter fan of 6 tasks, task with additional files; commands and Go functions; plain / nested / ../ paths) x crash points of every task enumerated from a dry run's event log x in-command group kills x kills at logical trace instants x kills at the instant a large output becomes visible at its final path (plain, parent-relative and absolute paths); protocol per case: (1) crashed run, (2) if temp directories are left: re-run without cleanup must stop with non-zero status and finalize nothing wrong, (3) remove temp directories and FIFOs, re-run: must succeed, yield exactly the uninterrupted file set and bytes, and must not re-execute tasks whose outputs were already final (no start event, same inode and mtime), (4) thorough: the recovery run is itself crashed and recovered; one topology has a task whose declared output is a directory. distinct_nontrivial = distinct (shape, path shape, kind, crash instant) whose crash fired, classified by the pre-recovery state (leftovers / partially finalized / clean)")
 	c.Assume("cleanup = removing every _scipipe_tmp* directory and *.fifo below the working directory (what the library's error message asks for)", "audit-only leftovers (x.audit.json without x) are not temp directories and stay")
 	rng := c.Rand("c03")
 	var tcs []topoCase
@@ -170,6 +172,15 @@ func c03(args []string) {
 			cases = append(cases, &c03Case{tc: tc, label: "kill@trace-line", kline: 1 + rng.Intn(d.ntrace)})
 		}
 	}
+	// absolute output paths (and the other shapes) with a large output, killed at the instant the output becomes
+	// visible at its final path: whatever is visible then must be what the re-run may rely on
+	for _, k := range []string{"chain", "twoout"} {
+		for _, sh := range []gen.PathShape{gen.ShapeAbs, gen.ShapePlain, gen.ShapeParent} {
+			for r := 0; r < c.Pick(1, 3); r++ {
+				cases = append(cases, &c03Case{tc: topoCase{k, sh, false, 2}, label: "kill@final-path-visible", visible: true, opts: map[string]string{"size": "30000000"}})
+			}
+		}
+	}
 	run.Parallel(len(cases), func(i int) {
 		fc := cases[i]
 		root := c.CaseDir()
@@ -177,6 +188,19 @@ func c03(args []string) {
 		s := gen.Topo(fc.tc.kind, fc.tc.shape, fc.tc.gof, root, fc.tc.n)
 		exp := evalRef(s, nil)
 		pre := preRootSet(root, s)
+		var killWhen []string
+		if fc.visible {
+			for _, t := range exp.Tasks {
+				if len(t.Outs) > 0 && fc.key == "" {
+					fc.key = t.Key
+					for port, p := range t.Outs {
+						if !t.Streams[port] {
+							killWhen = append(killWhen, filepath.Join(root, mon.RootRel(root, p)))
+						}
+					}
+				}
+			}
+		}
 		bh := gen.TopoBehav(fc.tc.kind, exp)
 		if fc.key != "" {
 			if bh[fc.key] == nil {
@@ -194,7 +218,7 @@ func c03(args []string) {
 		describe := map[string]interface{}{"topology": fc.tc.kind, "path_shape": fc.tc.shape, "gofunc": fc.tc.gof, "fault": fc.label, "crash": fc.crash, "target": fc.key, "kill_at_trace_line": fc.kline, "spec": s}
 		var allTrace []vproto.Event
 		// (1) crashed run
-		cs := &run.Case{Root: root, Bin: c.Bin, Spec: s, Env: cfg.env(), Behav: bh, KillAtTraceLine: fc.kline}
+		cs := &run.Case{Root: root, Bin: c.Bin, Spec: s, Env: cfg.env(), Behav: bh, KillAtTraceLine: fc.kline, KillWhenExists: killWhen}
 		c.Eval(1)
 		r1 := cs.Run()
 		allTrace = append(allTrace, r1.Trace...)
